@@ -383,7 +383,12 @@ def main():
         sys.exit(do_replay(prop, args.replay))
 
     allh = parse_harnesses()
-    sel = [h for h in allh if prop in h.claims() and (args.tier == "thorough" or h.tier == "quick")]
+    # quick: the harnesses that list the property; thorough: additionally every harness whose
+    # panic / memory-safety / unwinding checks are attributed to it (C09, C18, C03, C21: the union)
+    if args.tier == "thorough":
+        sel = [h for h in allh if prop in h.claims()]
+    else:
+        sel = [h for h in allh if prop in h.props and h.tier == "quick"]
     if args.only:
         sel = [h for h in sel if args.only in h.name]
     if not sel:
@@ -412,9 +417,28 @@ def main():
         logdir = os.path.join(root, "logs")
         os.makedirs(logdir)
         tdir = os.path.join(root, "target")
-        for (crate, geom, extra, _bin), hs in sorted(groups.items()):
-            log(f"[{prop}] kani: crate={crate} geometry={geom} harnesses={len(hs)} (timeout {timeout_s}s, jobs {args.jobs})")
-            data, wall, txt = run_group(src, crate, geom, list(extra), hs, timeout_s, min(args.jobs, max(1, len(hs))), tdir, logdir)
+        gl = sorted(groups.items())
+        total_h = sum(len(hs) for _, hs in gl)
+        out = {}
+
+        def work(idx, key, hs):
+            crate, geom, extra, _bin = key
+            j = max(1, min(len(hs), (args.jobs * len(hs) + total_h - 1) // total_h)) if len(gl) > 1 else min(args.jobs, max(1, len(hs)))
+            log(f"[{prop}] kani: crate={crate} geometry={geom} harnesses={len(hs)} (timeout {timeout_s}s, jobs {j})")
+            try:
+                out[idx] = run_group(src, crate, geom, list(extra), hs, timeout_s, j, tdir + f".{idx}", logdir)
+            except InconclusiveError as e:
+                out[idx] = e
+
+        threads = [threading.Thread(target=work, args=(i, k, hs)) for i, (k, hs) in enumerate(gl)]
+        for t in threads:
+            t.start()
+        for t in threads:
+            t.join()
+        for idx, ((crate, geom, extra, _bin), hs) in enumerate(gl):
+            if isinstance(out.get(idx), Exception):
+                raise out[idx]
+            data, wall, txt = out[idx]
             bypath = {h.path(): h for h in hs}
             stats = {c["harness_id"]: c.get("cbmc_stats", {}) for c in data.get("cbmc", [])}
             seen = set()
@@ -449,7 +473,7 @@ def main():
                 nviol += 1
                 log(f"VIOLATION property={prop} replay=(replay disabled) harness={h.name}")
                 continue
-            rep, test_src, out = playback(src, hdir, h, geom, tdir, logdir)
+            rep, test_src, out = playback(src, hdir, h, geom, tdir + '.pb', logdir)
             rpath = save_replay(prop, h, geom, rec, test_src, rep)
             rec["replay"] = {"path": rpath, "reproduced": rep}
             if rep:
